@@ -607,8 +607,8 @@ class Rebound:
 # --------------------------------------------------------------------------
 
 class _FakeSelector:
-    """I/O multiplexer of CLoop: there is no I/O.  select(timeout) returns at once
-    for timeout 0, otherwise it is a controlled wait until the loop was woken by
+    """I/O multiplexer of CLoop: there is no I/O.  select(timeout) is a controlled
+    wait (always a yield point, also for timeout 0) until the loop was woken by
     call_soon_threadsafe (`_write_to_self`) or the controlled clock reached the
     timeout."""
 
@@ -617,9 +617,6 @@ class _FakeSelector:
         self.woken = False
 
     def select(self, timeout=None):
-        if timeout is not None and timeout <= 0:
-            self.woken = False
-            return []
         c, t = _me()
         if t is None:
             raise ControllerError("CLoop must run on a logical thread")
